@@ -56,3 +56,42 @@ SYMRT_HARNESS(C18_one_pset) {
   // const argument unchanged
   { Point x = oracle::fresh_point(2 * n); symrt::check(R.contains(x) == oracle::in_cs(ph.constraints(), x), "C18: the relation was modified"); }
 }
+
+// Two-pointset entry points: guard over n dimensions, transition over 2n dimensions.
+SYMRT_HARNESS(C18_two_psets) {
+  unsigned n = symrt::param("n", 1), r = symrt::param("r", 2), s = symrt::param("s", 1);
+  long B = symrt::param("B", 1), Bb = symrt::param("Bb", 1);
+  C_Polyhedron before(n), after(2 * n); RefSet R(2 * n);
+  for (unsigned i = 0; i < r; ++i) {
+    SymRow row; for (unsigned j = 0; j < n; ++j) row.a.push_back(symrt::cinput(S("g", i, j), -B, B));
+    row.b = symrt::input(S("gb", i), -Bb, Bb); row.kind = 1; row.m = 0;
+    before.add_constraint(row_constraint(row));
+    // the guard constrains the unprimed variables, which are dimensions n..2n-1 of the relation
+    std::vector<expr> a(2 * n, ival(0)); for (unsigned j = 0; j < n; ++j) a[n + j] = term(row.a[j]); R.add(a, term(row.b), 1);
+  }
+  for (unsigned i = 0; i < s; ++i) {
+    SymRow row; for (unsigned j = 0; j < 2 * n; ++j) row.a.push_back(symrt::cinput(S("t", i, j), -B, B));
+    row.b = symrt::input(S("tb", i), -Bb, Bb); row.kind = symrt::flag(S("teq", i)) ? 0 : 1; row.m = 0;
+    after.add_constraint(row_constraint(row)); ref_add(R, row);
+  }
+  bool t_ms = termination_test_MS_2(before, after), t_pr = termination_test_PR_2(before, after);
+  Generator mu_ms = point(), mu_pr = point();
+  bool r_ms = one_affine_ranking_function_MS_2(before, after, mu_ms), r_pr = one_affine_ranking_function_PR_2(before, after, mu_pr);
+  symrt::note(std::string("terminates=") + (t_ms ? "1" : "0"));
+  symrt::require(t_ms == r_ms, "C18 2: termination_test_MS_2 and one_affine_ranking_function_MS_2 disagree");
+  symrt::require(t_pr == r_pr, "C18 2: termination_test_PR_2 and one_affine_ranking_function_PR_2 disagree");
+  symrt::require(t_ms == t_pr, "C18 2: the MS_2 and PR_2 verdicts differ on closed polyhedra");
+  if (r_ms) check_ranking(rank_of(mu_ms, n), R, n, "C18 MS_2");
+  if (r_pr) check_ranking(rank_of(mu_pr, n), R, n, "C18 PR_2");
+  if (symrt::param("all", 1)) {
+    C_Polyhedron ms_space; NNC_Polyhedron pr_space;
+    all_affine_ranking_functions_MS_2(before, after, ms_space);
+    all_affine_ranking_functions_PR_2(before, after, pr_space);
+    symrt::require(ms_space.is_empty() == !t_ms, "C18 2: all_affine_ranking_functions_MS_2 empty iff no termination");
+    symrt::require(pr_space.is_empty() == !t_pr, "C18 2: all_affine_ranking_functions_PR_2 empty iff no termination");
+    if (!pr_space.is_empty()) { const Generator_System& gs = pr_space.minimized_generators(); int k = 0;
+      for (Generator_System::const_iterator g = gs.begin(); g != gs.end() && k < 3; ++g) if (g->is_point()) { check_ranking(rank_of(*g, n), R, n, "C18 PR_2 space point"); ++k; } }
+    if (!ms_space.is_empty()) { const Generator_System& gs = ms_space.minimized_generators(); int k = 0;
+      for (Generator_System::const_iterator g = gs.begin(); g != gs.end() && k < 3; ++g) if (g->is_point()) { check_ranking(rank_of(*g, n), R, n, "C18 MS_2 space point"); ++k; } }
+  }
+}
